@@ -18,7 +18,7 @@ from ..peval import Evaluator, Lin, Obj, Unknown
 from ..inpx import Conv, IO, UTIL, find_convs, discriminators, placeholders, make_hook
 
 EXPLANATION = (
-    "R-C12-13 (T3, bounded to one fixture model; 5 unit-system / version combinations in the quick tier, all 20 in the thorough tier): the fixture model of C13 is written by "
+    "R-C12-17 (T3, bounded to one fixture model; 5 unit-system / version combinations in the quick tier, all 20 in the thorough tier): the fixture model of C13 is written by "
     "InpFile.write into an in-memory file, read back by InpFile.read, written and read again, all by the repository's code run by the in-house interpreter; elements, patterns, used "
     "curves, sources, options, controls and rules are compared through the part of the model dictionary the INP format carries, numbers to file precision; the second cycle changes nothing. "
     "Writer / reader agreement of InpFile._write_X / _read_X. T1: R-C12-1 every section written is read and vice versa (call-name tables). T2, symbolic "
@@ -888,24 +888,24 @@ ALL_UNITS = ("CFS", "GPM", "MGD", "IMGD", "AFD", "LPS", "LPM", "MLD", "CMH", "CM
 
 
 def run_thorough(repo, chk):
-    # R-C12-13 on every flow-unit system and both INP versions (the quick tier ran five of the twenty combinations)
+    # R-C12-17 on every flow-unit system and both INP versions (the quick tier ran five of the twenty combinations)
     from .c12_roundtrip import round_trip_rules
     rest = [(u, v) for u in ALL_UNITS for v in (2.2, 2.0) if (u, v) not in QUICK_COMBOS]
     try:
         round_trip_rules(repo, chk, rest)
     except AnchorError as e:
-        chk.error("R-C12-13: %s: %s" % (type(e).__name__, e))
+        chk.error("R-C12-17: %s: %s" % (type(e).__name__, e))
     chk.extra["exhaustive_over_unit_systems_and_versions"] = True
 
 
 def run(repo, chk):
-    # R-C12-13: the write -> read -> write -> read round trip of the fixture model, interpreted (see sa/props/c12_roundtrip.py); decides on its own
+    # R-C12-17: the write -> read -> write -> read round trip of the fixture model, interpreted (see sa/props/c12_roundtrip.py); decides on its own
     from .c12_roundtrip import round_trip_rules
     try:
         round_trip_rules(repo, chk, QUICK_COMBOS)
-        chk.floor("R-C12-13", 9 * len(QUICK_COMBOS))
+        chk.floor("R-C12-17", 9 * len(QUICK_COMBOS))
     except AnchorError as e:
-        chk.error("R-C12-13: %s: %s" % (type(e).__name__, e))
+        chk.error("R-C12-17: %s: %s" % (type(e).__name__, e))
     classes = conversion_classes(repo)
     chk.sample({"rule": "R-C12-2", "conversion classes equal to HydParam.Length": sorted(k for k, v in classes.items() if v == classes["HydParam.Length"])})
     rd, wr = repo.func(IO, "InpFile.read"), repo.func(IO, "InpFile.write")
@@ -1492,8 +1492,8 @@ def run(repo, chk):
 
 
 WITNESSES = [
-    dict(name="round-trip-valve-setting-written-unconverted", file=IO, old="                valve_set = from_si(self.flow_units, valve.initial_setting, HydParam.Flow)\n", new="                valve_set = valve.initial_setting\n", rule="R-C12-13"),
-    dict(name="round-trip-rule-priority-dropped-by-the-writer", file=IO, old="        if self.priority >= 0:\n", new="        if self.priority >= 99:\n", rule="R-C12-13"),
+    dict(name="round-trip-valve-setting-written-unconverted", file=IO, old="                valve_set = from_si(self.flow_units, valve.initial_setting, HydParam.Flow)\n", new="                valve_set = valve.initial_setting\n", rule="R-C12-17"),
+    dict(name="round-trip-rule-priority-dropped-by-the-writer", file=IO, old="        if self.priority >= 0:\n", new="        if self.priority >= 99:\n", rule="R-C12-17"),
     dict(name="mass-units-only-from-previous-read", file=IO, old="        if isinstance(quality_units, str) and quality_units.split('/')[0] in ('mg', 'ug'):\n            self.mass_units = MassUnits[quality_units.split('/')[0]]\n        elif self.mass_units is None:",
          new="        if self.mass_units is None:", rule="R-C12-9"),
     dict(name="single-demand-category-dropped", file=IO, old="            if len(demands) > 1 or (len(demands) == 1 and demands[0].category):", new="            if len(demands) > 1:", rule="R-C12-10"),
